@@ -3,7 +3,7 @@
     [den] (a query tree; Model/Query.v's [eval] is its reference semantics).  Model/Parser.v: the parser.
     External engines are universally quantified ([rq] regexp classification, [rx_auto], [rcompile], [lang]). *)
 From ZV Require Import Lib.Base Model.Query Generated.ParserTables Model.Parser Model.QueryDoc Model.QueryDocRun.
-From ZV Require Import Proofs.QueryDocTree Proofs.QueryDocParse.
+From ZV Require Import Proofs.QueryDocTree Proofs.QueryDocParse Proofs.QuerySimplify Proofs.QueryDocSem.
 From Coq Require Import String.
 Open Scope N_scope.
 
@@ -24,6 +24,26 @@ Proof.
   intros. rewrite Proofs.QueryDocParse.parse_render_iquery by assumption. apply iquery_den. assumption.
 Qed.
 Print Assumptions C06_parse_render.
+
+(** THE PROPERTY AS STATED ("selects the same documents"): the parsed query, evaluated with ANY atom
+    semantics (content/file-name matching, regexp engine, repository attributes - Model/Query.v's [eval],
+    required only to satisfy C05's [atoms_ok]), holds of a document exactly when the document satisfies the
+    documented reading [sat_query]: patterns/filters hold, '-' negates, a conjunction needs all members, a
+    group needs one of its conjunctions, case: governs its group (nested groups without own case: included),
+    type: and case: are not conditions. *)
+Theorem C06_selects_documented_documents :
+  forall (rq : str -> rqres) (rx_auto rcompile : str -> bool) (lang : str -> option str) (q : dquery),
+    wf_query rq rcompile q = true ->
+    exists t, parse rq rx_auto rcompile lang (render q) = Ok t /\
+      forall (D : Type) (env : atoms D) (d : D), atoms_ok env ->
+        eval env t d = Proofs.QueryDocSem.sat_query (rq_d rq) rx_auto lang D env d q.
+Proof.
+  intros rq rx_auto rcompile lang q Hwf. eexists. split; [apply C06_parse_render; exact Hwf|].
+  intros D env d Hok. rewrite Proofs.QuerySimplify.Simplify_preserves by exact Hok.
+  change (den (rq_d rq) rx_auto lang q) with (den_expr (rq_d rq) rx_auto lang CAuto (DGroup q)).
+  apply Proofs.QueryDocSem.den_sat.
+Qed.
+Print Assumptions C06_selects_documented_documents.
 
 (** its two halves: the byte level (tokens, quoting/escapes, parenthesis and "or" recognition) ... *)
 Theorem C06_token_structure :
@@ -115,3 +135,29 @@ Definition ex_q2 : dquery :=
 Example ex_q2_full : ex_wf ex_q2 = true /\ ex_parse (render ex_q2) = Ok (Simplify (ex_den ex_q2)) /\
   Simplify (ex_den ex_q2) = QAnd [QSubstring (dbs "Ab") true false false; QSubstring (dbs "Cd") false false false].
 Proof. repeat split; vm_compute; reflexivity. Qed.
+
+(** a toy atom semantics (documents = byte strings, literals match by case-sensitive containment) for which
+    the document-level theorem is exercised: "a -b" selects "xa" and not "ab" *)
+Definition toy : atoms str :=
+  {| a_substr := fun p _ nm d => negb nm && (if index_sub p d then true else false) || is_nil p;
+     a_regexp := fun re _ _ _ => N.eqb (rx_op re) OpEmptyMatch;
+     a_symbol := fun _ _ => false; a_case := fun _ _ => false; a_lang := fun _ _ => false;
+     a_filename := fun _ _ => false; a_branch := fun p _ _ => is_nil p; a_onbranch := fun _ _ => false;
+     a_repo_re := fun _ _ => false; a_repo_name := fun _ _ => false; a_repo_id := fun _ _ => false;
+     a_repo_meta := fun _ _ _ => false; a_repo_rc := fun _ => 0 |}.
+Lemma toy_ok : atoms_ok toy.
+Proof.
+  constructor; intros; simpl.
+  - apply orb_true_r.
+  - apply N.eqb_eq. assumption.
+  - reflexivity.
+Qed.
+Definition ex_q3 : dquery := [[DText (WPlain (dbs "a")); DNeg (DText (WPlain (dbs "b")))]].
+Example ex_q3_docs : ex_wf ex_q3 = true /\
+  Proofs.QueryDocSem.sat_query (rq_d lit_rq) (fun _ => false) (fun _ => None) str toy (dbs "xa") ex_q3 = true /\
+  Proofs.QueryDocSem.sat_query (rq_d lit_rq) (fun _ => false) (fun _ => None) str toy (dbs "ab") ex_q3 = false /\
+  (exists t, ex_parse (render ex_q3) = Ok t /\ eval toy t (dbs "xa") = true /\ eval toy t (dbs "ab") = false).
+Proof.
+  split; [vm_compute; reflexivity|]. split; [vm_compute; reflexivity|]. split; [vm_compute; reflexivity|].
+  eexists. split; [vm_compute; reflexivity|]. split; vm_compute; reflexivity.
+Qed.
